@@ -3,7 +3,7 @@
    ran the same scenario on the real package); [run_flat] decodes it, interprets
    it on the model and returns the flat transcript, which must equal the
    implementation's transcript.  Executable only; no proofs here. *)
-From Ice Require Import Base Spec Varint Chunk Postings Crc32 Footer.
+From Ice Require Import Base Spec Varint Chunk Postings Crc32 Footer Stored DocValues Dict.
 
 (* ---- parser over a flat list of numbers ---- *)
 Definition P (A : Type) := list N -> option (A * list N).
@@ -170,6 +170,52 @@ Definition run_iter_l1 (sl : Slot) (f t : bytes) (ex : option (list N)) (fl : bo
     | _ => [4294967294; 2]
     end.
 
+(* ---- stored fields through the L1 record model ---- *)
+Definition svals_of (fields : list bytes) (d : ADoc) : SVals :=
+  map (fun p => (opt_default 0 (index_of (fst p) fields 0), snd p)) (ad_stored d).
+
+Definition run_stored_l1 (A : ASeg) (n : N) (stop : option N) : list N :=
+  if o_count A <=? n then [0]
+  else
+    let blk := n / block_docs in
+    let docs := firstn (N.to_nat block_docs) (skipn (N.to_nat (blk * block_docs)) (as_docs A)) in
+    let svs := map (svals_of (as_fields A)) docs in
+    let off := nth (N.to_nat (n mod block_docs)) (block_offsets 0 svs) 0 in
+    match visit_stored (block_of svs) off (as_fields A) stop with
+    | Ok vals => w_list w_pair vals
+    | Err => [4294967294; 1]
+    | _ => [4294967294; 2]
+    end.
+
+(* ---- doc values through the L1 chunk/reader model ---- *)
+Definition dv_entries (A : ASeg) (f : bytes) : list (N * bytes) :=
+  flat_map' (fun nd : N * ADoc =>
+     match doc_field (snd nd) f with
+     | Some df => if adf_dv df then [(fst nd, dv_bytes (map fst (adf_terms df)))] else []
+     | None => []
+     end) (number_from 0 (as_docs A)).
+
+Definition dv_readers (A : ASeg) : list (bytes * DvReader) :=
+  let nch := N.to_nat ((o_count A - 1) / dv_chunk_docs + 1) in
+  map (fun f => (f, dv_open (dv_chunks nch (dv_entries A f)))) (as_fields A).
+
+Definition run_dv_l1 (A : ASeg) (fields : list bytes) (visits : list N) : list N :=
+  match dv_run (dv_readers A) fields visits with
+  | Ok outs => flat_map' (w_list w_pair) outs
+  | Err => [4294967294; 1]
+  | _ => [4294967294; 2]
+  end.
+
+(* ---- the dictionary through the L1 scratch-list model ---- *)
+Definition fst_entries (sl : Slot) (f : bytes) : list (bytes * FstVal) :=
+  map (fun t => (t, match encode_term sl f t with
+                    | E1Hit d nb => V1Hit d nb
+                    | EGen docs _ _ _ => VGen docs
+                    end)) (o_terms (sl_seg sl) f).
+
+Definition run_dict_l1 (sl : Slot) (f : bytes) (lo hi pre : option bytes) : list N :=
+  w_list w_dictentry (dict_iter pl_read pl_zero (fst_search (fst_entries sl f) lo hi pre)).
+
 Definition step (st : list Slot) (o : op) : list Slot * list N :=
   match o with
   | OBuild cm b => let A := abs_of_batch harness_norm b in (st ++ [mkSlot A cm false], [o_count A])
@@ -178,10 +224,10 @@ Definition step (st : list Slot) (o : op) : list Slot * list N :=
       (st ++ [mkSlot A cm true], w_list (w_list (fun x => [x])) nums ++ [o_count A])
   | OReload s _ => (st ++ [slot_full st s], [o_count (slot st s)])
   | OObsAll s => (st, obs_all (slot st s))
-  | ODict s f lo hi pre => (st, w_list w_dictentry (o_dict (slot st s) f lo hi pre))
+  | ODict s f lo hi pre => (st, run_dict_l1 (slot_full st s) f lo hi pre)
   | OIter s f t ex fl rep ops => (st, run_iter_l1 (slot_full st s) f t ex fl rep ops)
-  | OStored s n stop => (st, w_list w_pair (o_stored_stop (slot st s) n stop))
-  | ODV s fs vs => (st, flat_map' (fun n => w_list w_pair (o_dv (slot st s) fs n)) vs)
+  | OStored s n stop => (st, run_stored_l1 (slot st s) n stop)
+  | ODV s fs vs => (st, run_dv_l1 (slot st s) fs vs)
   | ODocsMatching s ts => (st, w_list (fun x => [x]) (o_docsmatching (slot st s) ts))
   | OStats s f => (st, w_stats (o_stats (slot st s) f))
   | OContains s f t => (st, w_bool (o_contains (slot st s) f t))
